@@ -73,7 +73,14 @@ func (p *Peers) Collect() (*WebRTCPeer, error) {
 	}
 	// Track new valid Snowflake in internal collection and pass along.
 	p.activePeers.PushBack(connection)
-	p.snowflakeChan <- connection
+	select {
+	case p.snowflakeChan <- connection:
+	case <-p.melt:
+		// The hand-over channel can be full of peers that closed while
+		// still queued. Do not keep collectLock forever in that case:
+		// End is waiting for it, and will close this peer with the rest.
+		return nil, fmt.Errorf("Snowflakes have melted")
+	}
 	return connection, nil
 }
 
